@@ -118,6 +118,22 @@ class Analyzer:
                 tix = el[4]
             elif el[0] == "dc":
                 steps = steps + (("dc", el[1]),)
+            elif el[0] == "i":
+                iv = st.sym.get((el[1], ()))
+                if iv is None:
+                    r = self.ty_range(self.b.locals[el[1]]["t"])
+                    iv = ("n", ("v", el[1], ()), 0) if r is not None else None
+                if iv is None or iv[0] != "n":
+                    return None
+                steps = steps + (("ix", iv),)
+                tix = self.T[tix].get("e")
+                if tix is None:
+                    return None
+            elif el[0] == "ci" and not el[3]:
+                steps = steps + (("ix", ("n", None, el[1])),)
+                tix = self.T[tix].get("e")
+                if tix is None:
+                    return None
             else:
                 return None
         return root, steps, tix
@@ -196,7 +212,43 @@ class Analyzer:
             v = v[1]
         if v[0] in ("sum", "diff", "rem"):
             v = v[1]
+        if v[0] == "nw":
+            v = self.reduce_nw(st, v, t)
         return v, t
+
+    def reduce_nw(self, st, v, tix=None):
+        x = ("n", v[1], v[2])
+        if st.prove_le(("n", None, 0), x, 0):
+            return x
+        r = self.ty_range(tix) if tix is not None else None
+        return ("iv", 0, r[1] if r else None)
+
+    def index_constraints(self, st, raw, ln, c):
+        """constraints for `raw - ln <= c` where raw may be a signed value reinterpreted as unsigned"""
+        if raw[0] == "nw":
+            x = ("n", raw[1], raw[2])
+            return x, [(("n", None, 0), x, 0), (x, ln, c)]
+        if raw[0] in ("pending",):
+            raw = raw[1]
+        if raw[0] in ("sum", "diff", "rem"):
+            raw = raw[1]
+        return raw, [(raw, ln, c)]
+
+    def conj_check(self, st, cons):
+        """-> (all proven, unproven constraints)"""
+        un = [(a, b, c) for (a, b, c) in cons if not (a[0] in ("n", "iv") and b[0] in ("n", "iv") and st.prove_le(a, b, c))]
+        return (not un), un
+
+    @staticmethod
+    def conj_lift(un):
+        if un and all(a[0] == "n" and b[0] == "n" and (a[1] is not None or b[1] is not None) for (a, b, c) in un):
+            return ("conj", un)
+        return None
+
+    def conj_assume(self, st, cons):
+        for (a, b, c) in cons:
+            if a[0] in ("n", "iv") and b[0] in ("n", "iv"):
+                st.add_le(a, b, c)
 
     def promoted_range(self, pid):
         """(lo, hi) of a promoted `a..=b` / `a..b` constant, hi inclusive-or-exclusive as written"""
@@ -315,7 +367,7 @@ class Analyzer:
             if i != FULL and not iv_empty(i):
                 st.iv[t] = i
             return
-        if v[0] in ("ref", "b", "opt", "iter", "rng", "promoted", "constdef", "strlit", "discr", "pending"):
+        if v[0] in ("ref", "b", "opt", "iter", "rng", "promoted", "constdef", "strlit", "discr", "pending", "closure", "nw"):
             st.sym[place] = v
 
     def stable_prefix(self, st, pj):
@@ -534,6 +586,10 @@ class Analyzer:
             i = iv_meet(i, (0, LEN_MAX + max(0, v[2])))
         if iv_within(i, rt):
             return v if v[0] == "n" else ("iv", i[0], i[1])
+        # signed -> unsigned of a possibly negative value: equals the source when that is >= 0, huge otherwise
+        if v[0] == "n" and v[1] is not None and rt[0] == 0 and (i[1] is None or rt[1] is None or i[1] <= rt[1]) \
+                and (i[0] is None or i[0] < 0):
+            return ("nw", v[1], v[2])
         return ("iv", rt[0], rt[1])
 
     # ------------------------------------------------------------------ conditions
@@ -877,6 +933,11 @@ class Analyzer:
             return None
         if ak == "array":
             return None
+        if ak == "closure":
+            for i, (v, t) in enumerate(vals):
+                self.store_field(st, (place[0], place[1] + (str(i),)), (v, t), rv["ops"][i])
+            st.sym[place] = ("closure", rv["def"])
+            return None
         return None
 
     def store_field(self, st, place, vt, op=None):
@@ -900,6 +961,7 @@ class Analyzer:
     def analyze(self, body, entry=None, collect=True):
         self.b = body
         self.res = Result(body)
+        self.switch_conds = {}
         self.eb = None
         # reference-typed locals with several definitions (loop-carried slices, re-bound `&mut` cursors) are places
         # of their own: `(*l)` is not resolved through whatever they pointed to in one particular iteration
@@ -920,7 +982,9 @@ class Analyzer:
         visits = {}
         work = {0}
         iters = 0
-        limit = 60 * max(8, len(rpo))
+        limit = 80 * max(8, len(rpo))
+        edge = {}
+        pred = body.pred
         while work:
             bi = min(work, key=lambda x: order.get(x, 1 << 30))
             work.discard(bi)
@@ -928,30 +992,45 @@ class Analyzer:
             if iters > limit:
                 raise RuntimeError("absint: no convergence in %s" % body.id)
             st = ins[bi]
-            if st.bottom:
-                continue
-            outs = self.transfer_block(bi, st.copy())
+            outs = [] if st.bottom else self.transfer_block(bi, st.copy())
+            got = {}
             for succ, so in outs:
                 if so is None or so.bottom:
                     continue
+                got[succ] = so if succ not in got else got[succ].join(so)
+            for succ in body.succ[bi]:
+                if succ in got:
+                    edge[(bi, succ)] = got[succ]
+                elif (bi, succ) in edge:
+                    del edge[(bi, succ)]
+                # in-state = join of the current out-states of all predecessors (not of their history)
+                new_in = None
+                for p in pred[succ]:
+                    e = edge.get((p, succ))
+                    if e is None:
+                        continue
+                    new_in = e if new_in is None else new_in.join(e)
+                if new_in is None:
+                    continue
                 old = ins.get(succ)
                 if old is None:
-                    ins[succ] = so
+                    ins[succ] = new_in
                     work.add(succ)
                     continue
-                if so.leq(old):
-                    continue
-                j = old.join(so)
                 if succ in heads:
+                    if new_in.leq(old):
+                        continue
+                    j = old.join(new_in)
                     visits[succ] = visits.get(succ, 0) + 1
                     if visits[succ] > 2:
                         j = old.widen(j, thresholds)
-                if not j.leq(old):
-                    ins[succ] = j
-                    work.add(succ)
-                elif not old.leq(j):
-                    ins[succ] = j
-                    work.add(succ)
+                    if not (j.leq(old) and old.leq(j)):
+                        ins[succ] = j
+                        work.add(succ)
+                else:
+                    if not (new_in.leq(old) and old.leq(new_in)):
+                        ins[succ] = new_in
+                        work.add(succ)
         self.res.iterations = iters
         self.res.in_states = ins
         if collect:
@@ -992,6 +1071,9 @@ class Analyzer:
                 self.res.ret_states.append((bi, st))
             return []
         if k == "switch":
+            if self.collect:
+                d, _ = self.eval_op(st, t["discr"])
+                self.switch_conds[bi] = d
             return self.do_switch(st, t)
         if k == "assert":
             return self.do_assert(st, bi, t)
@@ -1102,28 +1184,32 @@ class Analyzer:
         cond, _ = self.eval_op(st, t["cond"])
         if ak == "bounds":
             ln, lt = self.eval_op(st, t["ops"][0])
-            ix, it = self.eval_op(st, t["ops"][1])
-            ok = ln[0] in ("n", "iv") and ix[0] in ("n", "iv") and st.prove_le(ix, ln, -1)
-            lo_ok = True
+            raw, it = self.eval_op_raw(st, t["ops"][1])
+            if ln[0] not in ("n", "iv"):
+                ln = ("iv", 0, LEN_MAX)
+            ix, cons = self.index_constraints(st, raw, ln, -1)
+            if ix[0] not in ("n", "iv"):
+                ix = ("iv", 0, None)
+                cons = [(ix, ln, -1)]
+            ok, un = self.conj_check(st, cons)
             rule = None
             if ok:
                 rule = "D1" if (ln[0] == "n" and ln[1] is None) else "D3" if ix[0] == "n" and ix[1] is not None else "D2"
-            lift = None
-            if not ok and ln[0] == "n" and ix[0] == "n":
-                lift = ("le", ix, ln, -1)
-            self.oblige(bi, "S1", ok, rule, self.describe(t), t, "index %s out of bounds of length %s" % (self.vs(ix), self.vs(ln)), lift)
-            s2 = st
-            if ln[0] in ("n", "iv") and ix[0] in ("n", "iv"):
-                s2.add_le(ix, ln, -1)
-            return [] if s2.bottom else [(t["target"], s2)]
+            self.oblige(bi, "S1", ok, rule, self.describe(t), t, "index %s out of bounds of length %s" % (self.vs(ix), self.vs(ln)),
+                        None if ok else self.conj_lift(un))
+            self.conj_assume(st, cons)
+            return [] if st.bottom else [(t["target"], st)]
         if ak in ("div0", "rem0"):
-            dv, _ = self.eval_op(st, t["ops"][0])
-            i = st.val_iv(dv) if dv[0] in ("n", "iv") else FULL
-            ok = (i[0] is not None and i[0] > 0) or (i[1] is not None and i[1] < 0)
-            lift = ("nz", dv) if (not ok and dv[0] == "n") else None
-            self.oblige(bi, "S6", ok, "D6" if ok else None, self.describe(t), t, "divisor %s may be zero" % self.vs(dv), lift)
-            if dv[0] == "n":
-                self.assume(st, ("cmp", "Ne", dv, ("n", None, 0)), True)
+            # the assert message carries the dividend; the divisor is in the condition  `Eq(divisor, 0) == false`
+            truth = self.cond_truth(st, cond[1]) if cond[0] == "b" else None
+            ok = truth is not None and truth == t["expected"]
+            dv = None
+            if cond[0] == "b" and cond[1][0] == "cmp" and cond[1][1] == "Eq":
+                dv = cond[1][2] if not (cond[1][2][0] == "n" and cond[1][2][1] is None) else cond[1][3]
+            lift = ("nz", dv) if (not ok and dv is not None and dv[0] == "n") else None
+            self.oblige(bi, "S6", ok, "D6" if ok else None, self.describe_div(t), t, "divisor %s may be zero" % (self.vs(dv) if dv else "?"), lift)
+            if cond[0] == "b":
+                self.assume(st, cond[1], t["expected"])
             return [] if st.bottom else [(t["target"], st)]
         if ak.startswith("overflow"):
             # release semantics: the check does not exist; nothing may be assumed from it
@@ -1132,6 +1218,65 @@ class Analyzer:
             return [(t["target"], st)]
         # other assert kinds (misaligned pointer etc.): not input dependent
         return [(t["target"], st)]
+
+    def describe_div(self, t):
+        try:
+            return _short("%s(%s)" % (t["ak"], show(self.eb.operand(t["cond"]))))
+        except Exception:
+            return t["ak"]
+
+    def panic_guard(self, bi):
+        """condition that must hold for the panic block `bi` to be unreachable: the conjunction, over the
+        switch edges that lead (through straight-line blocks) into it, of the negated edge conditions; or None"""
+        b = self.b
+        entry_edges = []
+        seen = set()
+        stack = [bi]
+        while stack:
+            x = stack.pop()
+            if x in seen:
+                continue
+            seen.add(x)
+            preds = b.pred[x]
+            if not preds:
+                return None
+            for p in preds:
+                t = b.blocks[p]["term"]
+                if t["k"] == "switch":
+                    entry_edges.append((p, x))
+                elif t["k"] in ("goto", "call", "drop", "assert") and len(b.succ[p]) == 1:
+                    stack.append(p)
+                else:
+                    return None
+            if len(seen) > 12:
+                return None
+        conds = []
+        for p, x in entry_edges:
+            d = self.switch_conds.get(p)
+            if d is None or d[0] != "b":
+                return None
+            t = b.blocks[p]["term"]
+            vals = [v for v, tg in t["targets"] if tg == x]
+            other = t["otherwise"] == x
+            listed = {v for v, _ in t["targets"]}
+            # truth value of the discriminant on this edge
+            if vals and not other:
+                if len(vals) != 1:
+                    return None
+                edge_truth = bool(vals[0])
+            elif other and not vals:
+                if listed == {0}:
+                    edge_truth = True
+                elif listed == {1}:
+                    edge_truth = False
+                else:
+                    return None
+            else:
+                return None
+            conds.append(("not", d[1]) if edge_truth else d[1])
+        if not conds:
+            return None
+        return conds[0] if len(conds) == 1 else ("and",) + tuple(conds)
 
     def vs(self, v):
         if v[0] == "n":
@@ -1149,6 +1294,8 @@ class Analyzer:
         for x in steps:
             if x == "*":
                 s = "(*%s)" % s
+            elif isinstance(x, tuple) and x[0] == "ix":
+                s = "%s[%s]" % (s, self.vs(x[1]))
             elif isinstance(x, tuple):
                 s = "(%s as %s)" % (s, x[1])
             else:
